@@ -103,6 +103,7 @@ func (c C19) Run(t *tape.Tape, opt core.RunOpt) (res core.Result) {
 		w.ResolverReenters = 1 + t.Draw(2)
 	}
 	var ever []int
+	nearVars := map[string]interface{}{} // the caller's one variables map for selections that take $r
 	topics := []string{"a", "b", "c"}
 	topic := func() string {
 		if t.Bool(1, 6) {
@@ -184,6 +185,9 @@ func (c C19) Run(t *tape.Tape, opt core.RunOpt) (res core.Result) {
 				sb.EmptyGroupErr = !sb.TimeoutErr && t.Bool(1, 4)
 			}
 			sb.ByValue = t.Bool(1, 4)
+			if t.Bool(1, 5) {
+				sb.Near, sb.NearVars = true, nearVars
+			}
 			sb.Marks = t.Bool(1, 3)
 			w.AddSub(sb)
 			out := w.Subscribe(sb.ID)
